@@ -330,6 +330,145 @@ def ob_results_are_used(env):
             env.claim("contour_valued_map_assigned_back_to_self.contours:" + task, target == "self.contours")
 
 
+# ---- call sites under process isolation -----------------------------------------------------------------------------------------------------
+def _mk_isolation(site):
+    """A task that runs in a worker process works on pickled COPIES of its arguments and only its return value comes back.  The real method that
+    contains the call site is run twice on the same stub contours: with a serial map, and with a map that copies arguments and results (the
+    isolation a process boundary gives).  The state the method leaves behind must be the same."""
+    def body(env):
+        import copy
+        import hypnotoad.core.mesh as mesh_mod
+        import hypnotoad.core.equilibrium as eqm
+        from hypnotoad.core.equilibrium import Point2D
+        from harness.common import stub_region
+        sym = env.mode == "sym"
+        n = 4
+
+        class SC(eqm.PsiContour):
+            """contour whose expensive operations are replaced by cheap, STATE-CHANGING stand-ins (so that losing a change is visible)"""
+            def getRefined(self, **kw):
+                new = copy.copy(self)
+                new.points = [Point2D(q.R, q.Z + 0.25) for q in self.points]
+                new._distance = ("distance_after_refine", len(self.points))
+                return new
+
+            def contourSfunc(self, psi=None):
+                k = 10.0 * len(self.points)
+                return lambda i: k + i
+
+            def totalDistance(self, psi=None):
+                return 100.0 * len(self.points) + self.startInd
+
+            def get_distance(self, psi=None):
+                self._distance = ("distance", tuple((q.R, q.Z) for q in self.points))
+                return self._distance
+
+            def checkFineContourExtend(self, psi=None):
+                self._fine_contour = ("fine_contour_extended", len(self.points))
+
+            def regrid(self, npoints, **kw):
+                self.points = [Point2D(q.R + 0.5, q.Z) for q in self.points]
+                return self
+
+        def mk(k):
+            c = SC.__new__(SC)
+            c.points = [Point2D(float(j), float(k)) for j in range(n)]
+            c._startInd, c._endInd = 0, n - 1
+            c._fine_contour, c._distance = None, None
+            c._extend_lower = c._extend_upper = 0
+            c.psival = 2.0 + k
+            c.global_xind = k
+            return c
+
+        LW, UW = Point2D(-0.5, 0.0), Point2D(n - 0.5, 0.0)
+
+        def find_intersection(i, contour, *, lower_wall, upper_wall, max_extend, **kw):
+            """the contour did not reach the wall: it is extended by one point at each wall end (as the real task does through temporaryExtend)"""
+            li = ui = lp = up = None
+            if lower_wall:
+                contour.points = [Point2D(-1.0, contour.points[0].Z)] + contour.points
+                contour._startInd += 1
+                if contour._endInd >= 0:
+                    contour._endInd += 1
+                li, lp = 0, Point2D(LW.R, contour.points[0].Z)
+            if upper_wall:
+                contour.points = contour.points + [Point2D(float(n), contour.points[-1].Z)]
+                ui, up = len(contour.points) - 2, Point2D(UW.R, contour.points[-1].Z)
+            return contour, li, lp, ui, up
+
+        def serial_map(fn, args, **kw):
+            return [fn(*a, psi=None, equilibrium=None, **kw) for a in args]
+
+        def isolating_map(fn, args, **kw):
+            return [copy.deepcopy(fn(*copy.deepcopy(a), psi=None, equilibrium=None, **kw)) for a in args]
+
+        lower_wall, upper_wall = True, True
+        if site == "addPointAtWallToContours":
+            w = env.choose(3)
+            lower_wall, upper_wall = [(True, True), (True, False), (False, True)][w]
+            env.tag("lower_wall=%s upper_wall=%s" % (lower_wall, upper_wall))
+        dist = {}
+
+        def calc_distance(a, b):
+            key = (a.R, a.Z, b.R, b.Z)
+            if key not in dist:
+                dist[key] = env.real("dist%d" % len(dist), lo=0, hi=1)
+            return dist[key]
+
+        def run(pmap):
+            r = stub_region(1, 1, site != "distributePointsNonorthogonal")
+            r.user_options.wall_point_exclude_radius = 1.0e-3
+            r.connections = {"inner": None, "outer": None, "lower": None if lower_wall else 7, "upper": None if upper_wall else 8}
+            r.contours = [mk(0), mk(1)]
+            r.ny_noguards = 1
+            r.equilibriumRegion = types.SimpleNamespace(psi=None, extend_lower=0, extend_upper=0, wallSurfaceAtStart=None, wallSurfaceAtEnd=None,
+                                                        nonorthogonal_options=types.SimpleNamespace(nonorthogonal_spacing_method="fixed_poloidal"),
+                                                        getSfuncFixedSpacing=lambda *a, **k: (lambda i: i), resetNonorthogonalOptions=lambda s: None)
+            r.meshParent = types.SimpleNamespace(equilibrium=types.SimpleNamespace(psi_sep=[1.0]))
+            r.sfunc_orthogonal_list = [None, None]
+            r.parallel_map = pmap
+            import contextlib
+            import io
+            with patched((mesh_mod, "calc_distance", calc_distance), (mesh_mod, "_find_intersection", find_intersection)), \
+                    contextlib.redirect_stdout(io.StringIO()):
+                getattr(r, site)()
+            state = []
+            for c in r.contours:
+                state.append(([(q.R, q.Z) for q in c.points], c.startInd, c.endInd, c._distance, c._fine_contour))
+            sf = [f(1.0) for f in r.sfunc_orthogonal_list if f is not None]
+            return state, sf
+
+        a_state, a_sf = run(serial_map)
+        env.witness("serial_run_done")
+        b_state, b_sf = run(isolating_map)
+        env.witness("isolated_run_done")
+
+        def same(x, y):
+            if isinstance(x, (tuple, list)) and isinstance(y, (tuple, list)):
+                return len(x) == len(y) and all(same(u, v) for u, v in zip(x, y))
+            if core.is_sym(x) or core.is_sym(y):
+                return env.identical(x, y)
+            return x == y
+        for k, (sa, sb) in enumerate(zip(a_state, b_state)):
+            env.claim("contour_points_same_as_serial:%d" % k, same(sa[0], sb[0]))
+            env.claim("contour_start_and_end_index_same_as_serial:%d" % k, sa[1] == sb[1] and sa[2] == sb[2])
+            env.claim("contour_cached_distance_and_fine_contour_same_as_serial:%d" % k, same(sa[3], sb[3]) and same(sa[4], sb[4]))
+        env.claim("number_of_contours_same_as_serial", len(a_state) == len(b_state))
+        env.claim("orthogonal_spacing_functions_same_as_serial", same(a_sf, b_sf))
+    return body
+
+
+for _site in ("addPointAtWallToContours", "distributePointsNonorthogonal", "calcDistances"):
+    OBLIGATIONS.append(Ob("call_site_under_process_isolation_" + _site, _mk_isolation(_site), tier="quick", family="callers",
+                          desc="the real MeshRegion.%s leaves the same contours behind with a map that copies arguments and results (process boundary) as with a serial map; "
+                               "the tasks' stand-ins change the contour they are given (extension, refinement, cached distance)" % _site,
+                          encodes=["hypnotoad.core.mesh:MeshRegion." + _site] + (["hypnotoad.core.mesh:_refine_extend"] if _site.startswith("add") else [])
+                          + (["hypnotoad.core.mesh:_calc_contour_distance"] if _site == "calcDistances" else []) + ["hypnotoad.core.equilibrium:PsiContour.refine"],
+                          stubs=["contour operations -> cheap state-changing stand-ins", "_find_intersection -> extends the contour by one point per wall end",
+                                 "calc_distance -> symbolic reals (every proximity branch)"],
+                          bounds="2 contours of 4 points; wall at lower/upper/both ends", max_paths=400))
+
+
 def real_replay(nworkers, ntasks):
     """replay against real multiprocessing: a raising module-level task; a hang (timeout) reproduces 'blocks forever'"""
     def replay(claim_name, values):
